@@ -40,8 +40,98 @@ def h_write_input_untouched(ctx, program="gaussian"):
             ctx.oblige("write_input-leaves-argument-unchanged", f, cls=f"{program}:{where}")
 
 
+def h_json_untouched(ctx, fn="LiCl_STO4G_Gaussian_input.json", ndump=2):
+    """QCSchema: dumping (repeatedly) leaves the caller's object, incl. nested lists/dicts in extra, unchanged."""
+    import os
+    import warnings
+    import iodata.api as api
+    from harness import rt
+    from symx import corpus
+    from symx.stubs import stubbed
+    mods = rt._fmt_modules("json_qcschema")
+    text = open(os.path.join(os.path.dirname(api.__file__), "test", "data", fn)).read()
+    with stubbed(*mods):
+        t2, _ = corpus.tokenise(text, min_decimals=3, max_tokens=400)
+        p0 = ctx.tmp_path("in.json")
+        ctx.write_text(p0, t2)
+        with warnings.catch_warnings(record=True):
+            warnings.simplefilter("always")
+            data = api.load_one(p0, fmt="json_qcschema")
+            data.atcorenums
+            before = rt.snapshot(ctx, data)
+            for k in range(ndump):
+                ret = api.dump_one(data, ctx.tmp_path(f"out{k}.json"), fmt="json_qcschema")
+        after = rt.snapshot(ctx, data)
+        for where, f in rt.snap_equal(ctx, before, after, "data"):
+            ctx.oblige("dump-leaves-argument-unchanged", f, cls=f"json,{fn}:{where[:70]}")
+        ctx.oblige("dump-returns-the-very-object", ret is data, cls=f"json,{fn}")
+
+
+def h_wf_conversion(ctx, fmt="wfn", case="aminusb"):
+    """Wavefunction formats: conversions are explicit (warning / error) and the converted object is equivalent."""
+    import warnings
+    import iodata.api as api
+    from iodata.iodata import IOData
+    from iodata.utils import DumpError, PrepareDumpError, PrepareDumpWarning
+    from harness import c01, rt, wfobj
+    from symx.stubs import stubbed
+    mods = rt._fmt_modules(fmt)
+    allow = ctx.choice([False, True], label="allow_changes")
+    shells = {"generalized": c01.SHELLSETS["gen"], "SP": c01.SHELLSETS["SP"]}.get(case, c01.SHELLSETS["sp"])
+    occ = case if case.startswith("aminusb") else "closed"
+    with stubbed(*mods):
+        kw = wfobj.make_wf(ctx, c01.ATOMS, shells, conv="horton2", mo_kind="restricted", norb=2, occ=occ)
+        data = IOData(**kw)
+        data.atcorenums
+        src = c01.semantic(ctx, data)
+        before = rt.snapshot(ctx, data)
+        path = ctx.tmp_path(c01.FILENAMES[fmt])
+        with warnings.catch_warnings(record=True) as wl:
+            warnings.simplefilter("always")
+            try:
+                ret = api.dump_one(data, path, allow_changes=allow)
+                err = None
+            except (PrepareDumpError, DumpError) as e:
+                ret, err = None, e
+        warned = any(issubclass(w.category, PrepareDumpWarning) for w in wl)
+        after = rt.snapshot(ctx, data)
+        cls = f"{fmt},{case},allow={allow}"
+        for where, f in rt.snap_equal(ctx, before, after, "data"):
+            ctx.oblige("dump-leaves-argument-unchanged", f, cls=f"{cls}:{where.split('.')[1] if '.' in where else where}")
+        # what the format cannot express (documented): occs_aminusb; generalized contractions (FCHK keeps SP shells)
+        needs = case.startswith("aminusb") or case == "generalized" or (case == "SP" and fmt != "fchk")
+        if fmt == "fchk" and case.startswith("aminusb"):
+            ctx.oblige("incompatible-object-refused", isinstance(err, PrepareDumpError), cls=cls, detail=str(err))
+            return
+        if not allow:
+            if needs:
+                ctx.oblige("conversion-needs-allow_changes", isinstance(err, PrepareDumpError), cls=cls,
+                           detail=f"err={err} returned-same-object={ret is data}")
+            else:
+                ctx.oblige("compatible-object-written-as-is", err is None and ret is data and not warned, cls=cls, detail=str(err))
+            return
+        ctx.oblige("allowed-conversion-succeeds", err is None, cls=cls, detail=str(err))
+        if err is not None:
+            return
+        if needs:
+            ctx.oblige("conversion-is-announced-and-returns-a-new-object", warned and ret is not data, cls=cls,
+                       detail=f"warned={warned} same-object={ret is data}")
+        else:
+            ctx.oblige("no-conversion-no-warning", ret is data and not warned, cls=cls)
+        dst = c01.semantic(ctx, ret)
+        for label, f, where in c01.same_orbitals(ctx, src, dst):
+            ctx.oblige("converted-object-equivalent:" + label, f, cls=cls, detail=where)
+        ctx.oblige("converted-object:nelec-and-spinpol", ctx.eq(ret.nelec, data.nelec) and ctx.eq(ret.spinpol, data.spinpol), cls=cls)
+
+
 def jobs(tier):
     out = [j for j in c02.jobs(tier, prop="C09") if "twin" not in j["name"] and "touch" not in j["name"]]
+    for fmt in ("fchk", "molden", "molekel", "wfn", "wfx"):
+        for case in ("plain", "aminusb", "aminusb-zero", "generalized", "SP"):
+            out.append(job("C09", f"wf-conversion[{fmt},{case}]", "harness.c09", "h_wf_conversion", dict(fmt=fmt, case=case),
+                           max_validate=4))
+    for fn in ("LiCl_STO4G_Gaussian_input.json", "H2O_CCSDprTpr_STO3G_output.json", "CuSCN_molecule_extra.json", "water_full.json"):
+        out.append(job("C09", f"json-untouched[{fn}]", "harness.c09", "h_json_untouched", dict(fn=fn), max_validate=1))
     for p in ("gaussian", "orca"):
         out.append(job("C09", f"write_input-untouched[{p}]", "harness.c09", "h_write_input_untouched", dict(program=p)))
     return out
